@@ -411,5 +411,41 @@ class CoerceVariables(Contract):
                 ('coerced_map_is_spec', vals_ == V.Dict(SI.VarMap(defs, raw, n)))]
 
 
-CONTRACTS = COMMON_CONTRACTS + [VariableCoercer(), CoerceVariables(), DidYouMean(), EnumC(), InputFieldValue(), InputObjectC(), NonNull(), ListC(), NullWrapper(), ScalarC(), DirectivesC()]
+class GetInputCoercer(Contract):
+    """get_input_coercer(T): the returned closure denotes exactly the behaviour the specification prescribes for T"""
+    key = F + 'compute.py::get_input_coercer'
+    property_ids = ('C04', 'C13')
+    params = ['graphql_type']
+
+    def args(self, en, names):
+        self.A = super().args(en, names)
+        return self.A
+
+    def pre(self, A, st):
+        return [('type_wf', SI.TyWf(A['graphql_type']))]
+
+    def _inv0(self, en, st, k, st0):
+        ws = V.items(en.read(st.env['wrapper_coercers'], st))
+        inner = st.env['inner_type']
+        return {'cursor_wf': SI.TyWf(inner), 'wrappers_ok': SI.WsOk(ws),
+                'rebuild': SI.RebR(ws, SI.BehT(inner)) == SI.BehT(self.A['graphql_type'])}
+
+    def _inv1(self, en, st, k, st0):
+        ws = V.items(en.read(st.env['wrapper_coercers'], st))
+        c = en.read(st.env['coercer'], st)
+        n = length(ws)
+        return {'closure': V.is_Fun(c), 'wrappers_ok': SI.WsOk(take(ws, n - k)),
+                'rebuild': SI.RebR(take(ws, n - k), denote(c)) == SI.BehT(self.A['graphql_type'])}
+
+    @property
+    def loops(self):
+        return {0: LoopContract(self._inv0), 1: LoopContract(self._inv1)}
+
+    def post(self, A, st0, out):
+        if out.kind == 'raise':
+            return never_raises(out)
+        return [('is_closure', V.is_Fun(out.value)), ('denotes_type', denote(out.value) == SI.BehT(A['graphql_type']))]
+
+
+CONTRACTS = COMMON_CONTRACTS + [GetInputCoercer(), VariableCoercer(), CoerceVariables(), DidYouMean(), EnumC(), InputFieldValue(), InputObjectC(), NonNull(), ListC(), NullWrapper(), ScalarC(), DirectivesC()]
 LEMMAS = []
